@@ -153,13 +153,17 @@ pub fn update_read() {
     let variant = sym::param(0);
     let k = sym::param(1) as usize;
     let prior = sym::param(2) as usize;
-    let commit_prior = sym::param(3) != 0;
-    let a = Rep::new();
+    let commit_prior = sym::param(3) == 1;
+    let mut a = Rep::new();
     for _ in 0..prior {
         a.m.update(doc(variant, k)).expect("update (prior)");
         if commit_prior {
             a.m.commit(None).expect("commit (prior)");
         }
+    }
+    if sym::param(3) == 2 {
+        // the earlier (never committed) submissions are discarded again
+        a.m.unstage().expect("unstage");
     }
     let d = doc(variant, k);
     sym::observe_str(&serde_json::to_string(&d).unwrap());
